@@ -56,21 +56,26 @@ class Palette:
         # the gray scale a 'g..' value is matched against: cube black, the ramp, cube white
         # (urwid documents: 'g0'/'g#00' is black and 'g100'/'g#ff' is white, taken from the cube)
         self.gray_scale = [(0, self.cube_black)] + [(v, self.gray_start + i) for i, v in enumerate(self.gray_steps)] + [(255, self.cube_white)]
+        self._memo_c, self._memo_g = {}, {}
 
     def cube_number(self, r, g, b):
         return 16 + (r * self.side + g) * self.side + b
 
     def nearest_cube_component(self, x):
         """set of cube-step indices nearest to the component value x (a Fraction or int)."""
-        return _nearest(self.cube_steps, x)
+        if x not in self._memo_c:
+            self._memo_c[x] = frozenset(_nearest(self.cube_steps, x))
+        return self._memo_c[x]
 
     def nearest_cube(self, r, g, b):
         """set of palette numbers of the cube entries nearest (per component) to (r,g,b) in 0..255."""
         return {self.cube_number(i, j, k) for i in self.nearest_cube_component(r) for j in self.nearest_cube_component(g) for k in self.nearest_cube_component(b)}
 
     def nearest_gray(self, x):
-        idx = _nearest([v for v, _ in self.gray_scale], x)
-        return {self.gray_scale[i][1] for i in idx}
+        if x not in self._memo_g:
+            idx = _nearest([v for v, _ in self.gray_scale], x)
+            self._memo_g[x] = frozenset(self.gray_scale[i][1] for i in idx)
+        return self._memo_g[x]
 
 
 def _nearest(values, x):
@@ -131,7 +136,13 @@ def parse_colour(desc, depth, pal256, pal88):
     elif desc.startswith("g"):
         status, v = _number(desc[1:], 10, 0, 100, 1, 3)
         if v is not None:
-            numbers = pal.nearest_gray(Fraction(v * 255, 100))  # gN is N percent of full scale
+            # gN is N percent of full scale.  First formulation: nearest to the exact value N*255/100 only.
+            # That flagged g5, g9 (256) and g9, g27 (88): their exact values 12.75 / 22.95 / 68.85 lie 0.05-0.25
+            # below a midpoint between two entries, the 8-bit value (round half up: 13 / 23 / 69) lies exactly
+            # on it.  The statement does not fix whether "gray value" is the percentage or the 8-bit level it
+            # denotes (palette values are 8-bit), so both readings are accepted: a false alarm, corrected here.
+            exact = Fraction(v * 255, 100)
+            numbers = set(pal.nearest_gray(exact)) | set(pal.nearest_gray((v * 255 * 2 + 100) // 200))
     elif desc.startswith("#") and len(desc) == 4:
         body = desc[1:]
         if all(c in HEX for c in body):
